@@ -460,6 +460,14 @@ def check_key_dir(rep, ctx):
                 ok = True
         rep.add(Query("poll_secure_channel_status path %d: the key directory is passed to acl_directory before loop_poll starts" % i, "holds" if ok else "violated",
                       "acl_directory calls: %d" % len(acl), 0, "mirsym+z3", key="C12.keydir:acl-before-poll", reproduced=None))
+        # ... and it is restricted AFTER it was made sure to exist: acl_directory on a folder that is not there yet does nothing, the folder
+        # created afterwards has the process umask
+        mk = [e for e in r.events if e.kind in ("call", "await") and re.search(r"(^|::)(try_create_folder|create_dir_all|create_dir)$", e.callee)
+              and (re.search(r"key_dir|\.f\.%d\b" % ctx.field("KeyKeeper", "key_dir"), repr(e.rargs[0])) or is_part_of(origin(e.rargs[0]), me))]
+        if acl:
+            okc = all(r.events.index(m_) < r.events.index(acl[-1]) for m_ in mk)
+            rep.add(Query("poll_secure_channel_status path %d: the key directory is restricted after it was created (no creation of it follows the last acl_directory)" % i, "holds" if okc else "violated",
+                          "creations %d, of which after the acl: %d" % (len(mk), len([m_ for m_ in mk if r.events.index(m_) > r.events.index(acl[-1])])), 0, "mirsym", key="C12.keydir:acl-after-create", reproduced=None))
     rep.add(Query("witness: poll_secure_channel_status reaches loop_poll", "witness-hit" if n and lp else "witness-missed", "%d paths" % n, 0, "mirsym"))
     # acl_directory itself: owner root and mode 0700 on its argument, on every path
     try:
